@@ -237,6 +237,22 @@ pub fn checks(tier: Tier) -> Vec<Check> {
         return vec![];
     }
     let mut v = vector_checks(tier);
+    // batch inversion far beyond the sizes the group code uses: lengths around 2^10, 2^12, 2^16, 2^17 (a block
+    // size of a chunked implementation is not visible from outside: seeded change C01h, blocks of 2^16)
+    let long_batches: Vec<Req> = [1025usize, 4097, 65537, 70001, 131073].iter().map(|n| {
+        Req::new("fe.batch_invert", (0..*n).map(|i| enc_value(&Fp::from_u64([2u64, 3, 5, 0, 7][i % 5]), 0, 0)).collect())
+    }).collect();
+    v.insert(0, Check {
+        name: "C01.batch-invert-long".into(),
+        strategy: Just(Req::new("fe.batch_invert", vec![])).boxed(),
+        cases: 0,
+        exec: Box::new(crate::ops::exec),
+        oracle: Box::new(crate::mops::field::oracle),
+        classify: Box::new(|r: &Req, _: &Resp| if r.a.len() > 65536 { vec!["batch-longer-than-2^16"] } else { vec!["long-batch"] }),
+        rule: "FieldElement::batch_invert on 1025 .. 131073 elements (a few repeated values incl. zeros) against per-element model inverses",
+        exhaustive: true,
+        enumerate: Some(long_batches),
+    });
     v.insert(0, Check {
         name: "C01.serial-field-model".into(),
         strategy: strategy(),
